@@ -1,5 +1,6 @@
 // C19 - the char and wchar_t APIs behave identically (case-by-case differential of complete observations).
 #include "../core.h"
+#include "../mm.h"
 #include "fixture.h"
 #include "parse_sets.h"
 #include "corpus.h"
@@ -12,7 +13,7 @@ struct Local { uint64_t cases = 0; std::map<Str, uint64_t> fam; };
 
 template <class C> struct Obs {
     typedef Api<C> A; typedef typename A::Uri Uri; typedef typename A::QList QL;
-    OutBuf ob; Obs() : ob(8) {}
+    OutBuf ob; Ledger led; Obs() : ob(8) {}
     static Str okey(const Uri &u, const C *f, int n) {
         UriObs o = observe<C>(u, f, f + n); Str k = o.key();
         const RangeObs *rs[] = { &o.scheme, &o.userinfo, &o.host, &o.port, &o.query, &o.fragment };
@@ -43,7 +44,13 @@ template <class C> struct Obs {
     Str normalize(const Str &s, unsigned mask, int owned) {
         std::basic_string<C> w = widen<C>(s); Uri u; const C *ep; if (A::ParseSingleUriEx(&u, w.data(), w.data() + w.size(), &ep)) { A::FreeUriMembers(&u); return "noparse"; }
         unsigned mr = A::NormalizeSyntaxMaskRequired(&u); int r0 = owned ? A::MakeOwner(&u) : 0; Str k0 = owned ? observe<C>(u).key() : Str();
-        int rc = A::NormalizeSyntaxEx(&u, mask); int t; Str r = fmt("mr=%u own=%d rc=%d ", mr, r0, rc) + k0 + " -> " + observe<C>(u).key() + " " + to_text<C>(u, &t); A::FreeUriMembers(&u); return r;
+        int rc = A::NormalizeSyntaxEx(&u, mask); int t; Str r = fmt("mr=%u own=%d rc=%d ", mr, r0, rc) + k0 + " -> " + observe<C>(u).key() + " " + to_text<C>(u, &t); A::FreeUriMembers(&u);
+        // the same through a ledger manager: its blocks have exactly the requested size, trailing canaries, and its realloc always moves - a size
+        // computed in bytes where characters are meant (or the other way round) shows on every run, not only when the C library's heap happens to be tight
+        { Uri v; led.reset(); if (A::ParseSingleUriExMm(&v, w.data(), w.data() + w.size(), &ep, &led.mm) == URI_SUCCESS) { int r1 = owned ? A::MakeOwnerMm(&v, &led.mm) : 0; int r2 = A::NormalizeSyntaxExMm(&v, mask, &led.mm);
+              r += fmt(" | ledger own=%d rc=%d ", r1, r2) + observe<C>(v).key() + " " + to_text<C>(v, &t); } A::FreeUriMembersMm(&v, &led.mm);
+          if (!led.errors.empty()) r += Str(" ledger:") + led.errors[0] + "[" + A::name() + "]"; if (!led.live.empty()) r += fmt(" outstanding=%zu[%s]", led.live.size(), A::name()); led.reset(); }
+        return r;
     }
     Str escape(const Str &s, int plus, int nb) { std::basic_string<C> w = widen<C>(s); std::vector<C> out(s.size() * 6 + 2, (C)0x55); C *e = A::EscapeEx(w.data(), w.data() + w.size(), out.data(), plus, nb); C *e2; std::vector<C> out2(s.size() * 6 + 2, (C)0x55); e2 = A::Escape(w.c_str(), out2.data(), plus, nb);
         return fmt("%ld:", (long)(e - out.data())) + narrow<C>(out.data(), e) + fmt("|%ld:", (long)(e2 - out2.data())) + narrow<C>(out2.data(), e2) + fmt("|after=%02x", (unsigned)(out[e - out.data() + 1] & 0xff)); }
@@ -133,6 +140,8 @@ void run(Ctx &ctx) {
     all_strings(ctx, Str("a +%\r\n\xff~", 8), ctx.secondary ? 3 : q ? 4 : 5, [&](const Str &s) { for (int p = 0; p < 2; p++) for (int n = 0; n < 2; n++) d.escape(s, p, n); });
     all_strings(ctx, Str("%0aAdg+\r\n", 9), ctx.secondary ? 3 : q ? 5 : 6, [&](const Str &s) { for (int p = 0; p < 2; p++) for (int m = 0; m < 4; m++) d.unescape(s, p, m); });
     all_strings(ctx, "&=a+%41", ctx.secondary ? 3 : q ? 5 : 6, [&](const Str &s) { d.dissect(s, 1, URI_BR_DONT_TOUCH); d.dissect(s, 0, URI_BR_TO_CRLF); });
+    // stretch family through normalisation (copies sized from the decoded length, buffers handed back): long components, borrowed and owned
+    { std::vector<Str> st = stretch_list(0); uint64_t si = 0; for (auto &x : st) { if (!ctx.mine(si++) || ctx.expired()) continue; if (x.size() > 5000 || !ref::is_uri_reference(x)) continue; d.normalize(x, 63, 0); d.normalize(x, 63, 1); } }
     // stretch family for the query functions: items of a repeated unit, lengths around the powers of two (a buffer sized in bytes where characters are meant)
     { uint64_t si = 0; for (const char *u : { "a", "%26", "&a=", "+", "%0A" }) for (int n : stretch_lengths(ctx.secondary ? 0 : 1)) { if (n > 1100 || !ctx.mine(si++) || ctx.expired()) continue; Str x; for (int i = 0; i < n; i++) x += u;
           d.dissect(x, 1, URI_BR_DONT_TOUCH); d.dissect("k=" + x, 0, URI_BR_TO_CRLF); } }
